@@ -133,6 +133,40 @@ pub(crate) mod prelude {
                 self.current -= 1;
             }
         }
+
+        fn enter_nested(&mut self, _depth: usize) -> Result<(), super::error::CustomError> {
+            #[cfg(not(feature = "unbounded"))]
+            {
+                if LIMIT <= self.current + _depth {
+                    return Err(super::error::CustomError::RecursionLimitExceeded);
+                }
+                self.current += _depth;
+            }
+            Ok(())
+        }
+
+        fn exit_nested(&mut self, _depth: usize) {
+            #[cfg(not(feature = "unbounded"))]
+            {
+                self.current -= _depth;
+            }
+        }
+    }
+
+    /// Count the `depth` tables a dotted key nests its value in against the recursion limit
+    pub(crate) fn check_recursion_nested<'b, O>(
+        depth: usize,
+        mut parser: impl ModalParser<Input<'b>, O, ContextError>,
+    ) -> impl ModalParser<Input<'b>, O, ContextError> {
+        move |input: &mut Input<'b>| {
+            input
+                .state
+                .enter_nested(depth)
+                .map_err(|err| winnow::error::ErrMode::from_external_error(input, err).cut())?;
+            let result = parser.parse_next(input);
+            input.state.exit_nested(depth);
+            result
+        }
     }
 
     pub(crate) fn check_recursion<'b, O>(
